@@ -29,6 +29,7 @@ import MajoranaVerif.Proofs.Mvp60SlRun
 import MajoranaVerif.Proofs.Mvp60SlWitness
 import MajoranaVerif.Proofs.Mvp60SlSpec
 import MajoranaVerif.Proofs.Mvp60JumpWitness
+import MajoranaVerif.Proofs.Mvp60SlTerm
 open GoInt Model Model.Seq Proofs.Refine
 
 namespace Props.C01
@@ -922,5 +923,48 @@ example : Model.Mvp60.RegOnlyWf Proofs.Mvp60SlWitness.loopApp = true ∧ Model.M
    Proofs.Mvp60JumpWitness.jloop_p2.trans Proofs.Mvp60JumpWitness.jloop_seq.symm,
    Proofs.Mvp60JumpWitness.jloop_p4.trans Proofs.Mvp60JumpWitness.jloop_seq.symm,
    Proofs.Mvp60JumpWitness.jloop_flushes⟩
+
+/-- **C01 for MVP-6.0 on register-only programs with branches, jumps, calls and `ret` (totality), every number `K ≥ 1` of
+execute and write units.**  Every parsed program of `Model.Mvp60.RegOnlyWf`, every initial state related to a specification
+machine with fresh scoreboards (no pending write, no pending read) and `sequenceID = 0`: if the specification run is
+well-formed and ends within its fuel, the run of the model ends within some tick budget — with `ret`, past the last instruction
+or with the defined error, never with a Go panic.
+
+Why the pipeline always moves (`Proofs/Mvp60SlTerm.lean`): lexicographic induction on (steps of the unpipelined run still to
+go; mode: drain before a flush > normal > drain after `ret`; a measure).  In a drain every tick takes a result off the write
+bus (`Proofs.Mvp60Sl.muW`).  A normal tick with something on the execute bus executes the next instruction (what waits in a
+bus buffer is due at the next `Connect`, and an execute unit always finds room on the write bus).  With an empty execute bus
+(`Proofs.Mvp60Sl.stall_phi`): a runner waiting in the control unit is issued unless a scoreboard entry holds it back — then a
+result is still on the write bus and is written in this tick (the scoreboards hold no entry without an instruction in flight:
+`Proofs.Mvp60Sl.BackL`); with nothing behind the decode unit, the decode unit takes a pc off the decode bus, or the fetch unit
+emits one, or its memory access counts down — or everything is empty and the run ends. -/
+theorem mvp60_regonly_total (app : App) (hw : WfApp app) (hc : Model.Mvp60.RegOnlyWf app = true)
+    (ctx : Model.Context) (m : Spec.Machine) (hR : Rel ctx m) (hpw : ∀ r, GoMap.get1 ctx.PendingWriteRegisters r = 0)
+    (hpr : ∀ r, GoMap.get1 ctx.PendingReadRegisters r = 0) (hseq : ctx.sequenceID = 0) (K : Nat) (hK : 1 ≤ K) (fuel : Nat)
+    (hwf : ∀ why, (Spec.run (specProg app) m fuel).stop ≠ .notWf why) :
+    ∃ ticks hk, (Model.Mvp60.run app ctx K K ticks).halt = some hk ∧ ∀ w, hk ≠ .panic w := by
+  have hj := Proofs.Mvp60Sl.jclass_of_regOnlyWf app hc
+  have hT := Proofs.Mvp60Sl.tgtOk_of_spec app hw (Proofs.Mvp60Sl.jclass_all hj) ctx m hR fuel hwf
+  obtain ⟨N, aN, hN, hh⟩ := Proofs.Mvp60Sl.seq_halts_of_spec app hw ctx m hR fuel hwf
+  exact Proofs.Mvp60Sl.mvp60_j_terminates app ⟨hw.small, hw.nofwd, hj⟩ ctx ⟨hR.rat, hR.tx, hpw⟩ hpr K hK (Or.inl hseq) hT N aN hN hh
+
+/-- **`Full_mvp60_regonly_correct` for the class `RegOnlyWf`** (labels well-formed, scoreboards fresh, `sequenceID = 0`):
+safety and totality together, for every number `K ≥ 1` of execute and write units -/
+theorem mvp60_regonly_correct_total (app : App) (hw : WfApp app) (hc : Model.Mvp60.RegOnlyWf app = true)
+    (ctx : Model.Context) (m : Spec.Machine) (hR : Rel ctx m) (hpw : ∀ r, GoMap.get1 ctx.PendingWriteRegisters r = 0)
+    (hpr : ∀ r, GoMap.get1 ctx.PendingReadRegisters r = 0) (hseq : ctx.sequenceID = 0) (K : Nat) (hK : 1 ≤ K) (fuel : Nat) :
+    (∀ (ticks : Nat) (hk : Halt), (Model.Mvp60.run app ctx K K ticks).halt = some hk → (∀ w, hk ≠ .panic w) →
+      Agree4 (Spec.run (specProg app) m fuel) hk (Model.Mvp60.run app ctx K K ticks).final.ctx) ∧
+    ((∀ why, (Spec.run (specProg app) m fuel).stop ≠ .notWf why) →
+      ∃ ticks hk, (Model.Mvp60.run app ctx K K ticks).halt = some hk ∧ ∀ w, hk ≠ .panic w) :=
+  ⟨fun ticks hk hh hnp => mvp60_regonly_correct app hw hc ctx m hR hpw hseq K fuel ticks hk hh hnp,
+   fun hwf => mvp60_regonly_total app hw hc ctx m hR hpw hpr hseq K hK fuel hwf⟩
+
+/-- Non-vacuity of the totality hypotheses: `Proofs.Mvp60JumpWitness.earlyApp` is well-formed and in the class, the all-zero
+machine is related to the fresh context, and its specification run ends with `ret` -/
+example : WfApp Proofs.Mvp60JumpWitness.earlyApp ∧ Model.Mvp60.RegOnlyWf Proofs.Mvp60JumpWitness.earlyApp = true ∧
+    (Spec.run (specProg Proofs.Mvp60JumpWitness.earlyApp) { regs := Array.replicate 32 0#32, mem := Array.replicate 64 0#8 } 200).stop = .ret ∧
+    (∀ r, GoMap.get1 Proofs.Mvp60SlWitness.ctx0.PendingReadRegisters r = 0) :=
+  ⟨Proofs.Mvp60JumpWitness.early_wf, Proofs.Mvp60JumpWitness.early_class.1, Proofs.Mvp60JumpWitness.early_spec, fun r => rfl⟩
 
 end Props.C01
